@@ -218,6 +218,51 @@ theorem crash_recoverable_scope :
 
 /-! ## non-vacuity -/
 
+/-- the state after `0 new-sem 0 s0 2 OPEN; 1 new-sem 1 s0 5 OPEN`, written out: key file s0 = inode 1, key 1 = set 0
+    (value 2, alive), the creator's struct and a follower's struct -/
+def boundDemo : G :=
+  { os := { OS.init with files := fun g => if g = .sem 0 then some 1 else none, nextIno := 2,
+                         semKeys := fun k => if k = 1 then some 0 else none,
+                         sems := fun j => if j = 0 then { value := 2, alive := true } else {}, nextSem := 1 },
+    pidOf := id,
+    hs := fun h => if h = 0 then some (0, .sem ⟨false, true, some 1, .sem 0, some 0, .open, 2⟩)
+                   else if h = 1 then some (1, .sem ⟨false, false, some 1, .sem 0, some 0, .open, 5⟩) else none,
+    calls := fun _ => none, ret := fun _ => none, log := [] }
+
+set_option maxRecDepth 100000 in
+/-- … and it is what the model computes (on everything the invariant looks at, at the points that are not `none`) -/
+example :
+    let g := ((G.init id).call 0 (.newSem 0 0 2 .open)).call 1 (.newSem 1 0 5 .open)
+    g.os.files (.sem 0) = boundDemo.os.files (.sem 0) ∧ g.os.semKeys 1 = boundDemo.os.semKeys 1 ∧
+    (g.os.sems 0).alive = (boundDemo.os.sems 0).alive ∧ (g.os.sems 0).value = (boundDemo.os.sems 0).value ∧
+    g.os.nextSem = boundDemo.os.nextSem ∧ g.os.nextIno = boundDemo.os.nextIno ∧ g.os.reuse = boundDemo.os.reuse ∧
+    g.hs 0 = boundDemo.hs 0 ∧ g.hs 1 = boundDemo.hs 1 ∧ g.calls 0 = none ∧ g.calls 1 = none := by decide
+
+/-- the hypotheses of `one_set_per_name` / `same_set` / `other_names_do_not_touch_the_set` are satisfiable: the invariant
+    holds in `boundDemo`, and a schedule in which a third process is SIGKILLed is quiet -/
+example : Inv (.sem 0) 1 0 boundDemo ∧ QuietRun (.sem 0) boundDemo [.kill 2] ∧ (∀ n, KeyFile.sem 0 ≠ .shm n) := by
+  refine ⟨⟨⟨rfl, rfl, rfl, by decide, ?_, ?_, by decide, rfl⟩, ?_, ?_⟩, ⟨?_, trivial⟩, by intro n e; cases e⟩
+  · intro k hk
+    simp only [boundDemo] at hk
+    split at hk
+    · assumption
+    · cases hk
+  · intro g hg
+    simp only [boundDemo] at hg
+    split at hg
+    · assumption
+    · cases hg
+  · intro h p x hx
+    simp only [boundDemo] at hx
+    split at hx
+    · simp only [Option.some.injEq, Prod.mk.injEq] at hx; rw [← hx.2]; simp [Handle.inv, PSem.inv]
+    · split at hx
+      · simp only [Option.some.injEq, Prod.mk.injEq] at hx; rw [← hx.2]; simp [Handle.inv, PSem.inv]
+      · cases hx
+  · intro t c hc; cases hc
+  · intro t c hc; cases hc
+
+
 set_option maxRecDepth 100000 in
 /-- the hypotheses of `acquire_consumes` / `release_adds_partial` are met by the model's own states: a release in flight
     on a live set below SEMVMX -/
